@@ -86,6 +86,13 @@ CLAIMED["C17"] = ("Partial proof of the reseed discipline, for every state and e
  "Trusted: hash.Hash/hmac/cipher.Block interface contracts, the add*/update/derive helpers (frames only), DRBG interface contracts used by the wrapper, io.Reader.Read.",
  "DESIGN.md §4 C17")
 
+CLAIMED["C09"] = ("Partial proof, of the strict-decoding clause only: for every byte string, G1/G2/GT Unmarshal and the compressed G1/G2 decoders return without panicking and accept only if every "
+ "32-byte coordinate has a big-endian value below the field prime (canonical encoding), returning exactly the rest of the input (found and fixed D7: G1 ignored the coordinate errors). "
+ "Not decided and not attempted: group laws, scalar multiplication, bilinearity and non-degeneracy of the pairing, the on-curve and subgroup checks, re-encoding equality - all of them 256-bit "
+ "nonlinear field arithmetic outside what SMT-discharged verification conditions reach.",
+ "Trusted: gfP.Unmarshal (error exactly for values >= p; lessThanP is assumed), gfP.Set; every field/curve operation in the decoders is havocked (nothing assumed, nothing proved about it).",
+ "DESIGN.md §0.2, §4 C09")
+
 NOT_APPLICABLE = {
  "C02": "Not reached by the contract technique in this build: the SM4 round function (S-box tables, 32-bit rotations, XOR network) needs the bit-vector mode of the verifier, which exists only as a skeleton; the AES-NI/AVX assembly tiers are outside any Go-level contract. The Go wrappers around the SM4 assembly that cipher modes use are covered under C03. No other technique was substituted.",
  "C04": "GCM/CCM: table-driven GHASH and the fused SM4-GCM assembly need bit-vector reasoning over carry-less multiplication that the arith-mode VC generator cannot express; CCM's Go glue was planned but not reached in this build.",
